@@ -1,4 +1,5 @@
 pub mod gen;
+pub mod c05;
 pub mod c06;
 pub mod oracle;
 pub mod oracle2;
@@ -53,6 +54,8 @@ impl Rig for H1Rig {
         match (self.prop, tier) {
             ("C01", Tier::Quick) => 500_000,
             ("C01", Tier::Thorough) => 10_000_000,
+            ("C05", Tier::Quick) => 1_500,
+            ("C05", Tier::Thorough) => 40_000,
             ("C04", Tier::Quick) => 400_000,
             ("C04", Tier::Thorough) => 8_000_000,
             (_, Tier::Quick) => 300_000,
@@ -65,6 +68,7 @@ impl Rig for H1Rig {
             "C02" => gen::gen_pipeline(rng, "C02"),
             "C03" => gen::gen_pipeline(rng, "C03"),
             "C04" => gen::gen_pipeline(rng, "C04"),
+            "C05" => c05::gen_c05(rng, idx),
             "C06" => c06::gen_c06(rng, idx),
             _ => gen::gen_c01(rng, idx),
         }
@@ -76,6 +80,7 @@ impl Rig for H1Rig {
             "C02" => oracle::check_c02(sc, &out),
             "C03" => oracle2::check_c03(sc, &out),
             "C04" => oracle2::check_c04(sc, &out),
+            "C05" => c05::check_c05(sc, &out),
             "C06" => c06::check_c06(sc, &out),
             _ => vec![],
         };
